@@ -11,6 +11,9 @@ CHECKS = {
  'C02': dict(cat='exploration', sec='4/C02', tech='runtime monitoring: emitted converters executed on generated values against a reflective reference mapping, panic/crash monitor',
    text='Emitted converters of a seeded structural corpus are executed on systematic and random values (nil at every position, empty vs nil, extremes, shared substructures) and compared bit-exactly with an independent reference; panics and crashes are violations.',
    note='reference mapping written from the documentation; map keys injective; acyclic values; the array->slice assignment defect is a pinned known finding'),
+ 'C03': dict(cat='exploration', sec='4/C03', tech='runtime monitoring: in-process generation (public API) over completely enumerated type-pair universes, outcome monitor vs independent convertibility judgement; CLI cross-validation',
+   text='All ordered pairs of the depth-1 universe (175 types, 30k pairs) per settings variant, plus the depth-2 universe in thorough, are generated one converter per pair; success/failure and error class are compared with the judgement J written from the documentation; a sample is replayed through the real CLI.',
+   note='J is the trusted model; finite universes are enumerated completely, beyond them nothing is claimed'),
  'C04': dict(cat='exploration', sec='4/C04', tech='runtime monitoring: address-set (aliasing) monitor, source snapshot, mutation probes, Go race detector on concurrent calls of emitted code',
    text='Per executed conversion the memory reachable from source and result must be disjoint (except identical-type positions under skipCopySameType), the source unchanged, mutation of one side invisible on the other; concurrent calls on a shared source run under the race detector.',
    note='race detector judges executed interleavings only; address arithmetic via reflect/unsafe'),
